@@ -153,4 +153,138 @@ class C16d(Obligation):
         ctx.check(len(state.recursion_detector.pushed_nodes) == 0, 'and no statement is marked as being inferred')
 
 
-OBLIGATIONS = [C16a, C16c, C16d]
+import itertools  # noqa: E402
+
+from jedi import settings  # noqa: E402
+from jedi.api import completion as jcompletion  # noqa: E402
+from obligations.c04 import NameStub  # noqa: E402
+
+
+def arbitrary_order_set(ctx, counter):
+    """Environment model of set()/frozenset(): membership as Python defines it, ITERATION ORDER ARBITRARY - it depends on
+    the string-hash seed resp. on object addresses, which is what the property quantifies over.  The order is a
+    symbolic permutation (one solver-chosen integer per set)."""
+    class ArbitraryOrderSet:
+        def __init__(self, iterable=()):
+            self._items = []
+            for x in iterable:
+                self.add(x)
+
+        def add(self, x):
+            if x not in self:
+                self._items.append(x)
+
+        def update(self, *others):
+            for o in others:
+                for x in o:
+                    self.add(x)
+
+        def discard(self, x):
+            self._items = [y for y in self._items if not (x is y or x == y)]
+
+        def __iter__(self):
+            items = list(self._items)
+            perms = list(itertools.permutations(range(len(items))))
+            if len(perms) > 24:
+                raise AssertionError('model bound: sets of <=4 elements')
+            counter[0] += 1
+            k = ctx.choice('set_iteration%d_order_of_%d' % (counter[0], len(items)), len(perms)) if len(perms) > 1 else 0
+            return iter([items[i] for i in perms[k]])
+
+        def __len__(self):
+            return len(self._items)
+
+        def __contains__(self, x):
+            return any(x is y or x == y for y in self._items)
+
+        def __or__(self, other):
+            r = ArbitraryOrderSet(self._items)
+            r.update(other)
+            return r
+    return ArbitraryOrderSet
+
+
+class C16e(Obligation):
+    id = 'C16.e'
+    title = 'API-level ordering is independent of set iteration order (hash seed / object addresses): completions and definitions'
+    pattern = 'P3 (set()/frozenset() replaced by an environment model whose iteration order is a symbolic permutation)'
+    sym_containers = True
+    assumptions = (
+        'every set()/frozenset() built inside jedi.api.completion and jedi.api.helpers iterates in an arbitrary (symbolic) '
+        'order; 2..3 candidates with symbolic names over {a,A,b,_} (names may tie on the sort key), symbolic fragment; the '
+        'completion sources are stubs as in C04.c; for definitions: 2 names with symbolic positions/paths/spellings in a set',
+        'reference: the same call with every set iterating in insertion order',
+    )
+    z3_timeout = 8.0
+
+    def configs(self, tier):
+        c = [dict(kind='complete', m=2, N=2), dict(kind='definitions')]
+        if tier != 'quick':
+            c.append(dict(kind='complete', m=3, N=2))
+        return c
+
+    def _install(self, ctx, counter):
+        cls = arbitrary_order_set(ctx, counter)
+        for mod in (jcompletion, helpers):
+            ctx.patch(mod, 'set', cls)
+            ctx.patch(mod, 'frozenset', cls)
+        return cls
+
+    def scenario(self, ctx, cfg):
+        counter = [0]
+        aset = self._install(ctx, counter)
+        if cfg['kind'] == 'definitions':
+            state = Obj()
+            a, b = make_name(ctx, 'a', state), make_name(ctx, 'b', state)
+            equal = ctx.run(classes.Name.__eq__, a, b)
+            if equal:
+                return
+            # what Script.infer/goto/get_references do: sorted_definitions(set(defs))
+            out = ctx.call(lambda: helpers.sorted_definitions(aset([a, b])))
+            ref = ctx.call(helpers.sorted_definitions, [a, b])
+            ctx.check(out.exc is None and ref.exc is None, 'never raises')
+            if out.exc is None and ref.exc is None:
+                ctx.check(len(out.value) == 2 and out.value[0] is ref.value[0] and out.value[1] is ref.value[1],
+                          'the order of definitions does not depend on the iteration order of the set')
+            return
+        ctx.patch(settings, 'case_insensitive_completion', True)
+        ctx.patch(settings, 'add_bracket_after_function', False)
+        like = ctx.str('like', maxlen=1, alphabet='aA_')
+        names = [ctx.str('name%d' % i, maxlen=cfg['N'], alphabet='aAb_') for i in range(cfg['m'])]
+        for i in range(cfg['m']):
+            for j in range(i):
+                ctx.assume(names[i] != names[j])
+        cands = [NameStub(n) for n in names]
+
+        def run():
+            comp = jcompletion.Completion.__new__(jcompletion.Completion)
+            comp._pysym_holder = True
+            leaf = Obj(parent=None)
+            comp._module_node = Obj(get_leaf_for_position=lambda pos, include_prefixes=False: leaf)
+            comp._original_position = (1, 0)
+            comp._module_context = None
+            comp._code_lines = []
+            comp._fuzzy = False
+            comp._like_name = like
+            comp._inference_state = None
+            comp.stack = None
+            comp._signatures_callback = None
+            comp._complete_python = lambda leaf: (None, list(cands))
+            return ctx.call(jcompletion.Completion.complete, comp)
+        ctx.patch(jcompletion, '_extract_string_while_in_string', lambda leaf, pos: (None, None, None))
+        ctx.patch(jcompletion, 'complete_dict', lambda *a, **k: [])
+        out = run()
+        ctx.check(out.exc is None, 'complete() never raises')
+        # reference run: sets iterate in insertion order
+        ctx.cleanup_one(jcompletion, 'set')
+        ctx.cleanup_one(jcompletion, 'frozenset')
+        ref = run()
+        if out.exc is not None or ref.exc is not None:
+            return
+        ctx.check(len(out.value) == len(ref.value), 'same number of completions')
+        if len(out.value) == len(ref.value):
+            ctx.check(all(a._name is b._name for a, b in zip(out.value, ref.value)),
+                      'the order of completions does not depend on the iteration order of any set')
+
+
+OBLIGATIONS = [C16a, C16c, C16d, C16e]
